@@ -55,6 +55,9 @@ BodyTrivia == /\ phase = "body" /\ \E r \in Trivia : Feed(Ev(r, 1))
               /\ cnt' = cnt + 1 /\ UNCHANGED <<phase, stack, glines>>
 Simple == /\ phase = "body" /\ \E nl \in 1..2 : (Feed(Ev("IsExpressionStatement", nl)) /\ cnt' = cnt + nl)
           /\ stack' = PopSingles(stack) /\ UNCHANGED <<phase, glines>>
+(* a loop with an empty body ("while (x)" + line break + ";"): one control statement of two lines that opens no scope *)
+NullLoop == /\ phase = "body" /\ Feed(Ev("IsControlStatement", 2)) /\ cnt' = cnt + 2
+            /\ stack' = PopSingles(stack) /\ UNCHANGED <<phase, glines>>
 Control == /\ phase = "body" /\ Len(stack) < MaxOpen
            /\ Feed([Ev("IsControlStatement", 1) EXCEPT !.opensControl = TRUE])
            /\ stack' = Append(stack, "single") /\ cnt' = cnt + 1 /\ UNCHANGED <<phase, glines>>
@@ -77,7 +80,7 @@ Field == /\ phase = "type" /\ Feed(Ev("IsVarDeclaration", 1)) /\ cnt' = cnt + 1 
 TypeClose == /\ phase = "type" /\ Feed(Ev("IsBlockEnd", 1)) /\ phase' = "top" /\ glines' = glines + cnt + 1 /\ cnt' = 0 /\ UNCHANGED stack
 
 ENext == /\ nev < MaxEvents
-         /\ \/ TopTrivia \/ FuncDecl \/ FuncOpen \/ BodyTrivia \/ Simple \/ Control \/ ControlBrace \/ CloseBrace
+         /\ \/ TopTrivia \/ FuncDecl \/ FuncOpen \/ BodyTrivia \/ Simple \/ NullLoop \/ Control \/ ControlBrace \/ CloseBrace
             \/ FuncClose \/ TypeOpen \/ TypeBrace \/ Field \/ TypeClose
 ESpec == EInit /\ [][ENext]_evars
 
